@@ -27,7 +27,7 @@ func init() {
 			{ID: "C07.R2", Min: 20, Desc: "no lock re-acquisition while held; acyclic lock order", Fn: c07Deadlock},
 			{ID: "C07.R3", Min: 8, Desc: "one-way transitions with documented errors", Fn: c07Transitions},
 			{ID: "C07.R4", Min: 2, Desc: "bounded waits on the stop path", Fn: c07BoundedWaits},
-			{ID: "C07.R5", Min: 4, Desc: "shutdown wiring: poison kill of root, cancel, guardian goroutine", Fn: c07Wiring},
+			{ID: "C07.R5", Min: 5, Desc: "shutdown wiring: poison kill of root, cancel, guardian goroutine", Fn: c07Wiring},
 			{ID: "C07.R6", Min: 1, Desc: "guard signal closed only for the root's own OnKilled", Fn: c07GuardSignal},
 		},
 	})
@@ -632,6 +632,23 @@ func c07Wiring(p *Program, r *Report) {
 	r.Check(okCancel, "Stop cancels the system context before waiting", firstPos(g, cancels), "the wait for the guard signal is dominated by Kill(root) and by cancel() (which releases the guardian goroutine and remoting)")
 	// the wait is on the signal channel and the success path is reached only through that case or the timeout returns an error
 	r.Check(s.Signal != nil, "Stop waits for the guard signal", firstPos(g, sel), "the blocking select of the stop routine receives from a channel field of the system")
+	// after the tree is gone the system's own background machinery is stopped (the job scheduler's goroutine)
+	schedStop := nodesWhere(g, func(in ssa.Instruction) bool {
+		c := callOf(in)
+		if c == nil || c.StaticCallee() == nil || c.StaticCallee().Name() != "Stop" || c.StaticCallee().Signature.Recv() == nil {
+			return false
+		}
+		n := namedOf(c.StaticCallee().Signature.Recv().Type())
+		return n != nil && n.Obj().Name() == "Scheduler" && n != s.T
+	})
+	okSched := len(schedStop) > 0
+	for _, ex := range g.Exits {
+		ret := g.Nodes[ex].(*ssa.Return)
+		if v := retOperand(ret, 0); v != nil && isNilConst(strip(v)) && !g.DominatedByNodes(ex, schedStop) {
+			okSched = false
+		}
+	}
+	r.Check(okSched, "Stop shuts the job scheduler down", firstPos(g, schedStop), "every successful return of the stop routine is dominated by the scheduler's Stop(): no scheduler goroutine keeps running after Stop")
 	// Start: exactly one go statement, whose function waits on Context.Done() and then calls the stop routine
 	var gos []*ssa.Go
 	for _, fn := range withAnon(s.Start) {
